@@ -150,12 +150,20 @@ def solve_obligation(ob, budget_s, tmpdir, tag):
             out = "timeout"
         return (out or "").strip().splitlines()[0] if (out or "").strip() else ""
 
-    def z3_try(seconds):
+    def z3_try(seconds, tracked=False):
         sx = z3.Solver()
         sx.set("timeout", int(seconds * 1000))
-        sx.add(*bm.AXIOMS)
-        sx.add(*ob.pc)
-        sx.add(z3.Not(ob.goal))
+        if tracked:
+            # same problem, every assertion behind a tracking literal: this switches off z3's equation
+            # elimination pre-processing, which decides many string obligations the default pipeline loses
+            # itself in (a strategy variation, no change of the problem)
+            sx.set(unsat_core=True)
+            for i, a in enumerate(list(bm.AXIOMS) + list(ob.pc) + [z3.Not(ob.goal)]):
+                sx.assert_and_track(a, f"trk!{i}")
+        else:
+            sx.add(*bm.AXIOMS)
+            sx.add(*ob.pc)
+            sx.add(z3.Not(ob.goal))
         r = hard_check(sx, seconds)
         if r == z3.sat:
             # z3's string solver has returned bogus models under time pressure: a model must satisfy
@@ -185,6 +193,9 @@ def solve_obligation(ob, budget_s, tmpdir, tag):
         first = wait_cvc5(start_cvc5(), min(budget_s, 8.0))
         if first == "unsat":
             return "unsat", "cvc5-1.0.3", time.time() - t0, None, smt2
+    r, sx = z3_try(min(2.0, budget_s), tracked=True)
+    if r == z3.unsat:
+        return "unsat", "z3-5.1", time.time() - t0, None, smt2
     r, sx = z3_try(min(3.0, budget_s))
     if r == z3.unsat:
         return "unsat", "z3-5.1", time.time() - t0, None, smt2
